@@ -177,6 +177,43 @@ Proof.
     split; [congruence|]. intros l Hl0. apply Hown in Hl0. destruct Hl0; congruence.
 Qed.
 
+(** every lock that is held is recorded by its holder -- in every reachable state, whatever failed,
+    Unlock calls included: what CleanUpOwnLocks releases (every recorded key) is all there is *)
+Definition K_rec (s : state) : Prop :=
+  forall l t, lks (sh s) l = Some t -> exists th, thread_at s t th /\ recd th = true /\ l = c_lk (cfg th).
+
+Lemma K_rec_step s l s' e : K_rec s -> step s l = Some (s', e) -> K_rec s'.
+Proof.
+  intros HK Hs l0 t0 Hl0.
+  destruct (step_thread_same _ _ _ _ Hs) as (th & th' & Ha & Hts & Ha' & Hoth).
+  pose proof (tstep_cfg _ _ _ _ _ _ _ _ Hts) as Hcfg.
+  pose proof (tstep_lock_effect _ _ _ _ _ _ _ _ Hts) as Hle.
+  assert (Hold : lks (sh s) l0 = Some t0 -> t0 <> l_tid l -> exists th0, thread_at s' t0 th0 /\ recd th0 = true /\ l0 = c_lk (cfg th0)).
+  { intros H0 Hne. destruct (HK _ _ H0) as (th0 & A & B & C). exists th0. split; auto. }
+  destruct Hle as [Hk Hrc _|Hp Hn Hk Hrc _|_ _ Hown Hk Hrc _|_ _ Hk Hrc _].
+  - rewrite Hk in Hl0. destruct (Nat.eq_dec t0 (l_tid l)) as [->|Hne]; auto.
+    destruct (HK _ _ Hl0) as (th0 & A & B & C). unfold thread_at in A. rewrite Ha in A. inversion A; subst th0.
+    exists th'. split; auto. split; [congruence|congruence].
+  - rewrite Hk in Hl0. destruct (Nat.eq_dec (c_lk (cfg th)) l0) as [E|E].
+    + subst l0. rewrite lput_eq in Hl0. inversion Hl0; subst t0. exists th'. split; auto. split; auto. congruence.
+    + rewrite lput_neq in Hl0; auto. destruct (Nat.eq_dec t0 (l_tid l)) as [->|Hne]; auto.
+      destruct (HK _ _ Hl0) as (th0 & A & B & C). unfold thread_at in A. rewrite Ha in A. inversion A; subst th0. congruence.
+  - rewrite Hk in Hl0. destruct (Nat.eq_dec (c_lk (cfg th)) l0) as [E|E].
+    + subst l0. rewrite lput_eq in Hl0. discriminate.
+    + rewrite lput_neq in Hl0; auto. destruct (Nat.eq_dec t0 (l_tid l)) as [->|Hne]; auto.
+      destruct (HK _ _ Hl0) as (th0 & A & B & C). unfold thread_at in A. rewrite Ha in A. inversion A; subst th0. congruence.
+  - rewrite Hk in Hl0. destruct (Nat.eq_dec t0 (l_tid l)) as [->|Hne]; auto.
+    destruct (HK _ _ Hl0) as (th0 & A & B & C). unfold thread_at in A. rewrite Ha in A. inversion A; subst th0.
+    exists th'. split; auto. split; [congruence|congruence].
+Qed.
+
+Theorem held_is_recorded cs st s : reachable cs st s -> K_rec s.
+Proof.
+  intros [es R]. eapply (runs_inv any_label K_rec); eauto.
+  - intros; eapply K_rec_step; eauto.
+  - intros l t H. discriminate H.
+Qed.
+
 (** the release does not depend on the caller's context: a cancelled request still unlocks *)
 Theorem release_ignores_cancel t th s r b :
   tpc th = PUnlock r -> canc th = true -> lks s (c_lk (cfg th)) = Some t ->
